@@ -169,6 +169,24 @@ pub fn oracle(c: &Case, st: &mut Stats) -> Verdict {
     }
     let before = res.into_output().unwrap();
     let factor = f64::from_bits(c.factor_bits);
+    // which quantities are scalable is decided by the *written* recipe (model), not by what the
+    // parser made of it: a lock that the parser drops must show up here
+    let expected = crate::image::expected_image(&m, &crate::image::ExpectOpts { inline: true });
+    if expected.ingredients.len() == before.ingredients.len() {
+        for (i, (e, b)) in expected.ingredients.iter().zip(&before.ingredients).enumerate() {
+            if let (Some(eq), Some(bq)) = (&e.qty, &b.quantity) {
+                let parsed_linear = matches!(bq.value(), ScalableValue::Linear(_));
+                vensure!(
+                    eq.linear == parsed_linear,
+                    "c08.scalability-differs-from-source",
+                    "ingredient {i} ({}): the source says {} but the parsed quantity is {}; source {src:?}",
+                    b.name,
+                    if eq.linear { "scalable (numeric, no `=` lock)" } else { "fixed (text or `=` lock)" },
+                    if parsed_linear { "Linear" } else { "Fixed" }
+                );
+            }
+        }
+    }
     if before.ingredients.iter().any(|i| matches!(i.quantity.as_ref().map(|q| q.value()), Some(ScalableValue::Linear(_)))) {
         st.nontrivial(&(src.as_str(), c.factor_bits));
     }
